@@ -105,9 +105,22 @@ def run_cmp(case, stt):
     opn = case["op"]
     with lib("phase %s %s" % (opn, kind)):
         r = CMP[opn](pa, pbb)
-        r2 = CMP[{"<": ">", "<=": ">=", "==": "==", "!=": "!=", ">": "<", ">=": "<="}[opn]](pbb, pa) if kind != "number" else r
+        swapped = {"<": ">", "<=": ">=", "==": "==", "!=": "!=", ">": "<", ">=": "<="}[opn]
+        r2 = CMP[swapped](pbb, pa) if kind != "number" else r
+        # the same comparisons spelled as NumPy ufunc calls, the Phase as first and as second operand (for a Quantity also as an Angle)
+        UFN = {"<": np.less, "<=": np.less_equal, "==": np.equal, "!=": np.not_equal, ">": np.greater, ">=": np.greater_equal}
+        other = pbb
+        if kind == "quantity" and case["k"] % 2:
+            from astropy.coordinates import Angle
+
+            other = Angle(pbb)
+        r3 = UFN[opn](pa, other) if kind != "number" else r
+        r4 = UFN[swapped](other, pa) if kind != "number" else r
     rv, r2v = np.asarray(r).ravel(), np.asarray(r2).ravel()
     check(rv.dtype == bool and len(rv) == n, "comparison result dtype/shape {} {}", rv.dtype, np.shape(r))
+    for w, rr in (("np.<ufunc>(phase, other)", r3), ("np.<swapped ufunc>(other, phase)", r4)):
+        check(np.array_equal(np.asarray(rr).ravel(), rv) or any(0 < abs(x - y) < TWO52 for x, y in zip(ea, eb)),
+              "{} disagrees with the operator form of phase {} {}: {} vs {}", w, opn, kind, np.asarray(rr).ravel().tolist(), rv.tolist())
     hard = 0
     for x, y, g, g2 in zip(ea, eb, rv, r2v):
         d = x - y
